@@ -34,6 +34,9 @@ Guards (why the oracle is not stricter than the library):
    rewriting and constant folding are judged by execution in part A), canonicalises
    mirrored comparisons / ``x = 1`` AsBoolean renderings / double negation on BOTH parse
    trees, and skips a pair whose *reference* form the token model cannot parse (counted).
+ * a conjunction that folds to the constant true()/false() and is then used as an
+   operand of an ordering comparison / LIKE is refused by SQLAlchemy at construction
+   time (ArgumentError, by design): counted skip.
  * mechanisms are computed from a structurally shrunken witness: the first known-defect
    pattern the smallest still-differing tree contains, else the operator classes of
    its top two levels.
@@ -227,6 +230,8 @@ def adapt_for_grammar(G, tree, dialect):
             n[4] = False
         if n[0] in ("and", "or"):  # true()/false() members are constant-folded away (judged by execution)
             n[1][:] = [["col", "q"] if c[0] == "const" else c for c in n[1]]
+            if len(n[1]) == 1:  # and_(x) IS x: a NOT above it rewrites x (judged by execution)
+                n[:] = n[1][0]
         if n[0] == "case":
             for w in n[1]:
                 if w[0][0] == "const":
@@ -401,7 +406,13 @@ def run(ctx):
             for po, co, role in G.pairs(tree):
                 ctx.seen("op_pairs", f"{po}>{co}/{role}")
             # monitor counters proving the interesting code paths were reached
-            mexpr = G.build(tree, rig.env)
+            try:
+                mexpr = G.build(tree, rig.env)
+            except rig.sa.exc.ArgumentError:
+                # by design: a conjunction that folded to the constant true()/false() refuses
+                # to be an operand of <, LIKE, ... at construction time; nothing is rendered
+                ctx.count("construct_refused_constant_operand")
+                continue
             for el in _iter(mexpr):
                 if isinstance(el, E.ExpressionClauseList) and len(el.clauses) > 2:
                     ctx.count("flattened_seen")
